@@ -414,7 +414,11 @@ package channels
 //@   ensures [regular-event] (result == nil || result == datatransfer.ErrPause) && calls(Channels.checkEvents) == 1 && ret(Channels.checkEvents, 2) == nil && all(Group.Send, $r0 == nil) ==> count(Group.Send, $2 == evt && len($3) == 1 && elem($3, 0) == index) == 1
 
 //@ func (*channels.Channels).dispatch {C17}
+//@   requires dyntype_is(eventName, datatransfer.EventCode) && dyntype_is(channel, internal.ChannelState)
 //@   ensures [forward-once] calls(dyn.Notifier) == 1 && seq(dyn.Notifier)
+//@   ensures [same-event-post-state] all(dyn.Notifier, $1.Code == eventName.(datatransfer.EventCode) && $1.Message == channel.(internal.ChannelState).Message &&
+//@       dyntype_is($2, channelState) && $2.(channelState).ic.Status == channel.(internal.ChannelState).Status &&
+//@       $2.(channelState).ic.TransferID == channel.(internal.ChannelState).TransferID && $2.(channelState).ic.Received == channel.(internal.ChannelState).Received)
 
 // ---------------------------------------------------------------------------------------------
 // Construction: the state machine group gets exactly the table, entry functions and finality states above
